@@ -34,11 +34,11 @@ func NewIOWriter(writer io.Writer) func(ro.Observable[[]byte]) ro.Observable[int
 				ro.NewObserverWithContext(
 					func(ctx context.Context, value []byte) {
 						n, err := writer.Write(value)
+						count += n // a Writer may accept some bytes and fail: they were written
+
 						if err != nil {
 							destination.NextWithContext(ctx, count)
 							destination.ErrorWithContext(ctx, err)
-						} else {
-							count += n
 						}
 					},
 					func(ctx context.Context, err error) {
@@ -69,12 +69,12 @@ func NewStdWriter() func(ro.Observable[[]byte]) ro.Observable[int] {
 				ro.NewObserverWithContext(
 					func(ctx context.Context, value []byte) {
 						n, err := os.Stdout.Write(value)
+						count += n // a Writer may accept some bytes and fail: they were written
+
 						if err != nil {
 							destination.NextWithContext(ctx, count)
 							_, _ = os.Stderr.Write([]byte(err.Error()))
 							destination.ErrorWithContext(ctx, err)
-						} else {
-							count += n
 						}
 					},
 					func(ctx context.Context, err error) {
